@@ -3,7 +3,7 @@ import json
 import sys
 import types
 
-from harness import common, engine_deser
+from harness import common, engine_deser, sublaw
 
 VALIDATED_SRC = '''
 from dataclasses import dataclass, field
@@ -105,9 +105,11 @@ def main() -> int:
     rep.assumptions = ["reference semantics = spec/DataModel.tla (first accepting alternative; documented coercion table)",
                        "string -> number parsing and boolean words are Python's own, carried as string attributes",
                        "type-level validators (NewType / Annotated / field metadata on primitives and collections) are outside the "
-                       "universe's encoding: the law strict = coerced on right-typed data is checked on the real code directly"]
+                       "universe's encoding: the law strict = coerced on right-typed data is checked on the real code directly",
+                       "classes derived from a primitive (class Port(int)) are outside the universe's encoding: the law 'behaves as its primitive base, the value being an instance of the class' is checked on the real code on both sides (harness/sublaw.py)"]
     engine_deser.run("C14", rep, coerce=True, tiers_quick=("d0", "d1", "u"), tiers_thorough=("d0", "d1", "u", "d2"), identity_coercer_pass=True)
     rep.set("validated_types_cases", validated_types_law(rep))
+    rep.set("subprimitive_law_calls", sublaw.run(rep, "C14", [{"coerce": True}, {"coerce": lambda cls, data: data}]))
     return rep.finish()
 
 
